@@ -105,6 +105,10 @@ def update_param_state_dict_object(
 ) -> None:
     for k, v in current_param_state_dict.items():
         if k not in param_state_dict_to_load:
+            # Entries that do not contain any tensor (e.g., the state of a block without Kronecker factors) are
+            # dropped by flatten() when the state dict is saved, so there is nothing to restore for them.
+            if not flatten(extract_state_dict_content({k: v})):
+                continue
             if enable_missing_key_check:
                 raise KeyError(f"Key {k} not found in state dict to load.")
             else:
